@@ -143,6 +143,14 @@ def make_driver(cfg):
             if cfg.until_all_ready == "each":
                 wait_ready()
         out["exited"] = True
+        # every process ever started (replaced workers included) must have ended, and its end must happen-before
+        # this point (i.e. somebody joined it): otherwise a schedule exists in which it is still running now
+        me = s.current
+        unjoined = []
+        for t in s.tasks:
+            if t.is_process and (t.state != "done" or me.vc.get(t.idx, 0) < t.vc.get(t.idx, 0)):
+                unjoined.append((t.role, ".".join(map(str, t.lname)), t.state))
+        out["unjoined"] = unjoined
         return out
     return driver
 
@@ -239,6 +247,11 @@ def judge(cfg, r):
             # main left the pool context but something is still running / blocked
             sig = {"family": fam, "kind": "left-running", "blocked": bs}
             v.append(("C04", sig, "%s: after the pool context was left: %s" % (cfg.name, bs), {"blocked": r.blocked}))
+    if out.get("unjoined"):
+        sig = {"family": fam, "kind": "not-joined"}
+        v.append(("C04", sig, "%s: the pool context was left although worker process(es) %s had not been joined "
+                  "(not finished, or finished without anybody waiting for them)" % (
+                      cfg.name, ", ".join("%s[%s]" % (x[0], x[1]) for x in out["unjoined"])), {}))
     # ---- results ---------------------------------------------------------------------------------
     if not faulty:
         for k, rec in enumerate(calls):
